@@ -241,7 +241,7 @@ class Ctx:
             self.extra_cache[key] = objs
             return objs
 
-    def ir_translate(self, name, tu, cxx=False, defines=(), inline=2000, extra_flags=(), roots=("harness",)):
+    def ir_translate(self, name, tu, cxx=False, defines=(), inline=2000, extra_flags=(), roots=("harness",), resumable=()):
         """front end B: clang -O1 -> LLVM IR -> tools/ll2c.py -> C for cbmc.  Returns the path of the
         generated C (regenerated from /repo's working tree on every run)."""
         d = self.wpath("ir")
@@ -261,7 +261,7 @@ class Ctx:
             if rc != 0:
                 raise RuntimeError("opt failed for %s:\n%s" % (name, o[-3000:]))
             ll = ll2
-        rc, o, *_ = sh([sys.executable, os.path.join(VERIF, "tools", "ll2c.py"), ll, out], timeout=600)
+        rc, o, *_ = sh([sys.executable, os.path.join(VERIF, "tools", "ll2c.py")] + (["--resumable", ",".join(resumable)] if resumable else []) + [ll, out], timeout=600)
         if rc != 0:
             raise RuntimeError("ll2c failed for %s:\n%s" % (name, o[-3000:]))
         self.tv_programs += 1
